@@ -138,6 +138,32 @@ def main():
             print(out[-1], flush=True)
         finally:
             sh("git -C /repo checkout -- .")
+    # benign changes kept as patch files (written by the audit reviewers): tools/benign_patches/<ID>-<name>.diff
+    import glob, os
+    EXTRA = {"C03": ["C03", "C10", "C06", "C08"], "C07": ["C07", "C01"], "C08": ["C08"], "C09": ["C09"], "C10": ["C10", "C16", "C06"]}
+    for f in sorted(glob.glob("/verif/tools/benign_patches/*.diff")):
+        bid = "p-" + os.path.basename(f)[:-5]
+        if args and not any(bid.startswith(a) for a in args):
+            continue
+        owner = os.path.basename(f).split("-")[0]
+        if sh("git -C /repo apply " + f).returncode != 0:
+            out.append((bid, "DOES-NOT-APPLY", f)); print(out[-1]); continue
+        try:
+            status = []
+            if not no_tests:
+                t = sh("cd /repo && cargo test --offline --features serialize 2>&1 | grep -E '^test result|^error' ")
+                if "error" in t.stdout or "FAILED" in t.stdout or t.stdout.count("test result: ok") < 6:
+                    status.append("BASELINE-FAILS")
+            if not status:
+                for c in EXTRA.get(owner, [owner]):
+                    r = sh("cd /verif && ./check %s --runs %d --det 0" % (c, runs[c]))
+                    if r.returncode != 0:
+                        sigs = [l.strip().split()[1] for l in r.stdout.splitlines() if l.strip().startswith("signature ")]
+                        status.append("%s rc=%d %s" % (c, r.returncode, ",".join(sigs[:3])))
+            out.append((bid, "SILENT" if not status else "ALARM " + " | ".join(status), "patch file " + os.path.basename(f)))
+            print(out[-1], flush=True)
+        finally:
+            sh("git -C /repo checkout -- .")
     ok = sum(1 for o in out if o[1] == "SILENT")
     print("\n%d/%d benign changes leave all checks silent" % (ok, len(out)))
     json.dump([dict(id=o[0], result=o[1], what=o[2] if len(o) > 2 else "") for o in out], open("/verif/tools/benign_last.json", "w"), indent=1)
